@@ -308,6 +308,7 @@ DEFAULTS = dict(
     repeat_unchanged=0.1,
     trade_levels=(1, 1, 2, 3),
     market_time_offsets=(30_000, 600_000),
+    p_same_pt=0.0,  # consecutive updates with one publish time
     p_reschedule=0.0,  # the market time is moved by a marketDefinition delta (no image) before the off
     reschedule_ms=(-20_000, -5_000, 5_000, 60_000),
 )
@@ -364,6 +365,8 @@ class Director:
 
     # ---- steps ----
     def step_time(self):
+        if self.p["p_same_pt"] and self.mf.started and self.rng.random() < self.p["p_same_pt"]:
+            return self.t  # two consecutive updates of the market carry the same publish time
         self.t += self.rng.choice(self.p["spacing_ms"])
         return self.t
 
